@@ -107,6 +107,8 @@ def scope_sqlite(prog, rep, methods=None, rule="SCOPE"):
                     v = lvl.values[lvl.columns.index("bucketrow")]
                     ok, why = _is_scope_subselect(v, s, bp)
                     rep.check(ok, rule, fi.short, cons, "bucketrow value is the addressed bucket's rowid", f"inserted row is not tied to the addressed bucket: {why}", s.loc(), found=lvl.text())
+                    if getattr(lvl, "or_replace", False) and "id" in lvl.columns:
+                        rep.violation(rule, fi.short, cons + " OR REPLACE", "INSERT OR REPLACE with an explicit id resolves a primary-key conflict by DELETING the existing row with that id, whichever bucket it belongs to (event ids are global): a batch for this bucket that carries the id of another bucket's event removes that event from its bucket", s.loc(), expected="UPDATE ... WHERE id = ? AND bucketrow = <this bucket> for id-bearing events", found=lvl.text())
                     continue
                 ok, why = _events_level_scoped(lvl, s, bp)
                 if ok is None:
@@ -693,56 +695,87 @@ def _id_partition(cond, var):
     return None
 
 
+def _upsert_routes(prog, fi, rep, rule):
+    """how insert_many partitions `events` by id and where each partition goes
+    -> [{kind: has|none, sink: replace|insert_one|update-by-own-id|insert-without-id|?, node}]"""
+    routes = []
+
+    def sink_of_rows(rows_var, elem, row_elts):
+        for s_ in sql_sites(prog):
+            if s_.fi is fi and s_.many and s_.rows_var == rows_var:
+                if s_.stmt.kind == "insert":
+                    return "insert-without-id" if "id" not in s_.stmt.columns else "insert-with-id"
+                if s_.stmt.kind == "update" and s_.bindings:
+                    for c in s_.stmt.where:
+                        col, other = (c.left, c.right) if c.left.kind == "col" else (c.right, c.left)
+                        if col.kind == "col" and col.name == "id" and other.kind == "param" and other.index < len(s_.bindings) and norm(s_.bindings[other.index]) == f"{elem}.id":
+                            return "update-by-own-id"
+                    return "update-not-by-own-id"
+        return "?"
+
+    def sink_of_loop(loop, elem):
+        body = [x for x in loop.body if not (isinstance(x, ast.Expr) and isinstance(x.value, ast.Constant))]
+        if len(body) == 1 and isinstance(body[0], ast.Expr) and isinstance(body[0].value, ast.Call):
+            c = body[0].value
+            if norm(c.func) == "self.replace" and len(c.args) == 3 and norm(c.args[1]) == f"{elem}.id" and norm(c.args[2]) == elem:
+                return "replace"
+            if norm(c.func) == "self.insert_one" and len(c.args) == 2 and norm(c.args[1]) == elem:
+                return "insert_one"
+        apps = [x for x in ast.walk(loop) if isinstance(x, ast.Call) and isinstance(x.func, ast.Attribute) and x.func.attr == "append" and isinstance(x.func.value, ast.Name)]
+        if len(apps) == 1 and not any(isinstance(x, (ast.Continue, ast.Break)) for x in ast.walk(loop)):
+            a0 = apps[0].args[0] if apps[0].args else None
+            return sink_of_rows(apps[0].func.value.id, elem, a0.elts if isinstance(a0, (ast.Tuple, ast.List)) else None)
+        return "?"
+
+    for n in walk_with_nested_exprs(fi.node):
+        if isinstance(n, (ast.ListComp, ast.GeneratorExp)) and len(n.generators) == 1:
+            g = n.generators[0]
+            if is_param_ref(g.iter, fi, "events") and isinstance(g.target, ast.Name) and len(g.ifs) == 1:
+                k = _id_partition(g.ifs[0], g.target.id)
+                if k is None:
+                    rep.undecided(rule, fi.short, f"partition `{norm(g.ifs[0])}`", "filter over events is not an id test", fi.loc(n))
+                    continue
+                asg = parent(n)
+                var = asg.targets[0].id if isinstance(asg, ast.Assign) and isinstance(asg.targets[0], ast.Name) else None
+                sink = "?"
+                if norm(n.elt) == g.target.id:
+                    loops = [l for l in walk_own(fi.node) if isinstance(l, ast.For) and isinstance(l.target, ast.Name) and ((var and norm(l.iter) == var) or l.iter is n)]
+                    if len(loops) == 1 and not any(isinstance(x, ast.If) for x in loops[0].body):
+                        sink = sink_of_loop(loops[0], loops[0].target.id)
+                    # dict rows for peewee's insert_many(...).execute(): anything consuming the partition whole
+                    if sink == "?" and var and k == "none":
+                        sink = "bulk"
+                routes.append({"kind": k, "sink": sink, "node": n})
+            elif is_param_ref(g.iter, fi, "events") and g.ifs:
+                rep.undecided(rule, fi.short, f"partition `{[norm(c) for c in g.ifs]}`", "compound filter over events", fi.loc(n))
+    for l in walk_own(fi.node):
+        if isinstance(l, ast.For) and is_param_ref(l.iter, fi, "events") and isinstance(l.target, ast.Name):
+            body = [x for x in l.body if not (isinstance(x, ast.Expr) and isinstance(x.value, ast.Constant))]
+            if len(body) == 1 and isinstance(body[0], ast.If) and not body[0].orelse:
+                k = _id_partition(body[0].test, l.target.id)
+                if k is not None:
+                    inner = ast.For(target=l.target, iter=l.iter, body=body[0].body, orelse=[])
+                    routes.append({"kind": k, "sink": sink_of_loop(inner, l.target.id), "node": l})
+    return routes
+
+
 def upsert_rule(prog, rep, rule="UPSERT"):
     rep.rule(rule, "insert_many splits its argument into two complementary partitions (id is not None / id is None) over the same list; the id-bearing part reaches an update-by-id within the bucket, the id-less part an INSERT that does not name the id column; the inherited loop visits every element once")
     for cname in ("SqliteStorage", "PeeweeStorage"):
         fi = prog.func(f"{cname}.insert_many")
-        parts = {}
-        for n in walk_with_nested_exprs(fi.node):
-            if isinstance(n, (ast.ListComp, ast.GeneratorExp)) and len(n.generators) == 1:
-                g = n.generators[0]
-                if is_param_ref(g.iter, fi, "events") and isinstance(g.target, ast.Name) and len(g.ifs) == 1:
-                    k = _id_partition(g.ifs[0], g.target.id)
-                    if k is None:
-                        rep.undecided(rule, fi.short, f"partition `{norm(g.ifs[0])}`", "filter over events is not an id test", fi.loc(n))
-                    else:
-                        parts.setdefault(k, []).append(n)
-                elif is_param_ref(g.iter, fi, "events") and g.ifs:
-                    rep.undecided(rule, fi.short, f"partition `{[norm(c) for c in g.ifs]}`", "compound filter over events", fi.loc(n))
-        ok = set(parts) == {"has", "none"} and all(len(v) == 1 for v in parts.values())
-        rep.check(ok, rule, fi.short, "partitions", "events split into `id is not None` and `id is None`", f"the two partitions of `events` are not complementary (found {sorted(parts)}): events are dropped or written twice", fi.loc())
+        routes = _upsert_routes(prog, fi, rep, rule)
+        kinds = sorted(r["kind"] for r in routes)
+        ok = kinds == ["has", "none"]
+        rep.check(ok, rule, fi.short, "partitions", "events split into `id is not None` and `id is None`", f"the two partitions of `events` are not complementary (found {kinds}): events are dropped or written twice", fi.loc())
         if not ok:
             continue
-        # id-bearing part -> loop calling replace / insert_one with (bucket, e.id?, e)
-        has = parts["has"][0]
-        asg = parent(has)
-        var = asg.targets[0].id if isinstance(asg, ast.Assign) and isinstance(asg.targets[0], ast.Name) else None
-        loops = [l for l in walk_own(fi.node) if isinstance(l, ast.For) and ((var and norm(l.iter) == var) or l.iter is has)]
-        good = False
-        for l in loops:
-            if isinstance(l.target, ast.Name) and len(l.body) == 1 and isinstance(l.body[0], ast.Expr) and isinstance(l.body[0].value, ast.Call):
-                c = l.body[0].value
-                v = l.target.id
-                if norm(c.func) == "self.replace" and len(c.args) == 3 and norm(c.args[1]) == f"{v}.id" and norm(c.args[2]) == v:
-                    good = True
-                if norm(c.func) == "self.insert_one" and len(c.args) == 2 and norm(c.args[1]) == v:
-                    good = True
-        rep.check(good, rule, fi.short, "id-bearing partition", "each element goes to an update by its own id", "the id-bearing events are not each passed to replace(bucket, e.id, e) / insert_one(bucket, e)", fi.loc(has))
-    # the id-less part must not name id
-    s = [x for x in sql_sites(prog) if x.fi.short == "SqliteStorage.insert_many" and x.stmt.kind == "insert"]
-    if len(s) == 1:
-        rep.check("id" not in s[0].stmt.columns, rule, "SqliteStorage.insert_many", "INSERT columns", f"{s[0].stmt.columns}", "bulk INSERT names the id column", s[0].loc())
-        # rows built from the id-less partition only
-        fi = s[0].fi
-        nonepart = None
-        for n in walk_own(fi.node):
-            if isinstance(n, ast.Assign) and isinstance(n.value, ast.ListComp) and len(n.value.generators) == 1 and n.value.generators[0].ifs and _id_partition(n.value.generators[0].ifs[0], n.value.generators[0].target.id if isinstance(n.value.generators[0].target, ast.Name) else "") == "none":
-                nonepart = n.targets[0].id if isinstance(n.targets[0], ast.Name) else None
-        loops = [l for l in walk_own(fi.node) if isinstance(l, ast.For) and nonepart and norm(l.iter) == nonepart]
-        ok = len(loops) == 1 and any(isinstance(x, ast.Call) and norm(x.func) == f"{s[0].rows_var}.append" for x in ast.walk(loops[0])) and not any(isinstance(x, (ast.If, ast.Continue, ast.Break)) for x in ast.walk(loops[0]))
-        rep.check(ok, rule, fi.short, "id-less partition", "one row per id-less event", "rows for the bulk INSERT are not built one per element of the id-less partition", fi.loc())
-    else:
-        rep.undecided(rule, "SqliteStorage.insert_many", "INSERT", f"{len(s)} INSERT statements")
+        has = next(r for r in routes if r["kind"] == "has")
+        none = next(r for r in routes if r["kind"] == "none")
+        good = has["sink"] in ("replace", "insert_one", "update-by-own-id")
+        rep.check(good, rule, fi.short, "id-bearing partition", "each element goes to an update by its own id", f"the id-bearing events are not each passed to replace(bucket, e.id, e) / insert_one(bucket, e) / an UPDATE ... WHERE id = <their own id> (sink: {has['sink']})", fi.loc(has["node"]))
+        if cname == "SqliteStorage":
+            okn = none["sink"] == "insert-without-id"
+            rep.check(okn, rule, fi.short, "id-less partition", "one row per id-less event, INSERT that does not name the id column", f"rows for the bulk INSERT are not built one per element of the id-less partition, or the INSERT names the id column (sink: {none['sink']})", fi.loc(none["node"]))
     # inherited loop
     fi = prog.func("AbstractStorage.insert_many")
     from .trace import resolve
